@@ -179,6 +179,28 @@ def roundtrip(L=2, pct=False):
     return Spec([("doc", Dict[str, int]), ("k", str)], pre, body, tags=["ok", "unresolvable"])
 
 
+def roundtrip_pct3():
+    """keys of the form % x y (they look like percent escapes themselves): the pointer must carry them as %25xy"""
+    def pre(doc, k):
+        if not small(doc, 3, 1) or len(k) != 3 or k[0] != "%":
+            return False
+        for c in k[1:]:
+            if c not in "0125aAfF":
+                return False
+        for q in doc:
+            if len(q) != 3 and len(q) != 1:
+                return False
+        return True
+
+    def body(doc, k):
+        frag = "/" + esc(k).replace("%", "%25")
+        got = resolve(doc, frag)
+        want = ("ok", doc[k]) if k in doc else ("unresolvable", None)
+        return same(got, want), got[0]
+
+    return Spec([("doc", Dict[str, int]), ("k", str)], pre, body, tags=["ok", "unresolvable"])
+
+
 def roundtrip2(L=1, form="prefix"):
     """two-level paths: a symbolic member under concrete prefixes / a symbolic member holding an array"""
     if form == "prefix":
@@ -264,6 +286,7 @@ def conditions(tier, seed, active):
     if tier == "thorough":
         c("roundtrip/L3", "roundtrip", dict(L=3), ["ok", "unresolvable"], timeout=2400)
     c("roundtrip-pct/L1", "roundtrip", dict(L=1, pct=True), ["ok", "unresolvable"])
+    c("roundtrip-pct/escape-lookalike", "roundtrip_pct3", {}, ["ok", "unresolvable"], timeout=900)
     c("roundtrip-pct/L2", "roundtrip", dict(L=2, pct=True), ["ok", "unresolvable"], timeout=900)
     for form in ("prefix", "arr"):
         c("roundtrip2-%s/L1" % form, "roundtrip2", dict(L=1, form=form), ["ok", "unresolvable"], timeout=600)
